@@ -538,6 +538,7 @@ def _m_clear(eng, recv, args, kwargs):
 def _m_copy(eng, recv, args, kwargs):
     if isinstance(recv, PList):
         c = PList()
+        c.proto = recv.proto
         if recv.items is not None:
             c.items = list(recv.items)
         else:
@@ -896,6 +897,13 @@ def _b_list(eng, args, kwargs):
         return p
     if isinstance(v, Opaque) and "__list__" in v.proto:
         return v.proto["__list__"](eng, v)
+    if isinstance(v, _SymRange):
+        n, g = as_sequence(eng, v)
+        i = z3.Int(fresh_name("ri"))
+        p = PList()
+        p.items, p.kinds, p.tup, p.n = None, ["int"], False, n
+        p.cols = [z3.Lambda([i], to_z3(g(Sym(i, "int")), "int"))]
+        return p
     return PList(iterate_concrete(eng, v))
 
 
@@ -1135,3 +1143,26 @@ def _ite_chain(items, i, k):
     for j in range(len(items) - 2, -1, -1):
         z = z3.If(i == j, to_z3(items[j], k), z)
     return z
+
+
+def slice_indices(eng, sl, args, kwargs):
+    """slice.indices(n) for step None/1, by CPython's definition (PySlice_AdjustIndices)."""
+    (n,) = args
+    if sl.step not in (None, 1):
+        if all(not isinstance(x, Sym) for x in (sl.start, sl.stop, sl.step, n)):
+            return sl.indices(n)
+        raise Unsupported("slice.indices with a step on symbolic data")
+    if all(not isinstance(x, Sym) for x in (sl.start, sl.stop, n)):
+        return sl.indices(n)
+    nz = to_z3(n, "int")
+
+    def adj(v, default):
+        if v is None:
+            return default
+        vz = to_z3(v, "int")
+        vz = z3.If(vz < 0, z3.If(vz + nz < 0, z3.IntVal(0), vz + nz), z3.If(vz > nz, nz, vz))
+        return vz
+
+    lo = eng.snum(adj(sl.start, z3.IntVal(0)), "int")
+    hi = eng.snum(adj(sl.stop, nz), "int")
+    return (lo, hi, 1)
